@@ -43,7 +43,7 @@ fn main() {
         let f: Vec<&str> = line.split(' ').collect();
         macro_rules! pol {
             ($s:expr) => {
-                match std::panic::catch_unwind(|| AccessPolicy::parse(&tok($s))) {
+                match std::panic::catch_unwind(|| { let t = tok($s); if t.starts_with('@') { ast_policy(&t).ok_or_else(|| cosmian_cover_crypt::Error::InvalidBooleanExpression("bad built policy".into())) } else { AccessPolicy::parse(&t) } }) {
                     Ok(Ok(p)) => Some(p),
                     Ok(Err(_)) => None,
                     Err(_) => { writeln!(out, "PANIC|{}", dump_msk(&msk)).unwrap(); return; }
@@ -149,6 +149,10 @@ fn main() {
                     "2" => { b[1] ^= 1; }
                     "3" => { b[n - 40] ^= 1; }
                     "4" => { for x in &mut b[n - 32..] { *x = 0; } }
+                    // 5 = the NAME of a right altered (first right with a non-empty name): its secrets now stand under another right
+                    "5" => { let mut r = Rd::new(&b); let nm = r.leb(); r.take(nm * SK); let np = r.leb(); r.take(np * PT); let nc = r.leb(); let mut pos = None;
+                        for _ in 0..nc { let l = r.leb(); if l > 0 && pos.is_none() { pos = Some(r.p); } r.take(l); let nk = r.leb(); for _ in 0..nk { let h = r.leb(); r.take(SK); if h == 1 { r.take(DK); } } }
+                        match pos { Some(p) => b[p] ^= 1, None => b[n - 1] ^= 1 } }
                     _ => { b[n - 1] ^= 1; }
                 }
                 match UserSecretKey::deserialize(&b) {
@@ -172,6 +176,17 @@ fn main() {
                     Some(p) => { let mut b2 = b.clone(); b2[p] = h; msk.access_structure = cosmian_cover_crypt::AccessStructure::deserialize(&b2).unwrap(); writeln!(out, "OK|{}", dump_msk(&msk)).unwrap(); }
                     None => writeln!(out, "ERR|{}", dump_msk(&msk)).unwrap(),
                 }
+            }
+            // refresh of an issued key by ANOTHER master key (independent setup, same structure): refused, and neither the key
+            // nor the current master key may change (the key still opens what it opened)
+            "RFX" => {
+                if usks.is_empty() { writeln!(out, "NOIDX|{}", dump_msk(&msk)).unwrap(); return; }
+                let k: usize = f[1].parse::<usize>().unwrap() % usks.len();
+                let (mut other, _) = cc.setup().unwrap();
+                other.access_structure = msk.access_structure.clone();
+                let _ = cc.update_msk(&mut other);
+                let r = cc.refresh_usk(&mut other, &mut usks[k], f[2] == "1");
+                writeln!(out, "{}|{}|{}", if r.is_ok() { "OK" } else { "ERR" }, dump_msk(&msk), quiet_usk(&usks[k])).unwrap();
             }
             // backup / restore of the master key (an old serialized copy replaces the current one)
             "SNAP" => { snaps.push(msk.serialize().unwrap().to_vec()); writeln!(out, "OK|{}", dump_msk(&msk)).unwrap(); }
